@@ -55,8 +55,6 @@ def _dec_modules(sel):
     second = rd(sel, cur, 3)  # pkg.n holds: class X / class XFoo / a function only
     third = rd(sel, cur, 2) == 1  # a third module pkg.u with class X
     reexport = rd(sel, cur, 2) == 1
-    if ref_kind == 1 and not (second == 0 or third):
-        raise OutOfRange  # a bare reference that matches no class at all is C01's known finding (IndexError)
     if ref_kind == 0 and second != 0:
         raise OutOfRange  # a fully qualified reference to a class that does not exist
     return convert, ref_kind, second, third, reexport
